@@ -14,7 +14,7 @@ from bctmc.tally import Tally
 from bctmc import dtypes
 
 PROPERTY = 'C09'
-RULE = ('all 3-node weighted digraphs over {0, 4e-9, 1/2, 1} (nearly symmetric matrices with a very weak one-way connection); element types: every routine also on int64 / int32 / uint8 / bool copies of all 3-node digraphs over {0,1} and {0,1,2}, 4-node graphs over {0,1,2} and {-1,0,1}, 5-node binary graphs (same values as for float64; integers must not raise, a boolean matrix may be rejected with TypeError); the structured 7-10 node family of bctmc/named.py (binary and weights {1/8,1}) and all undirected graphs n<=5 and digraphs n<=4 (binary); weights {1/8,1} on 4-node graphs and 3-node digraphs; '
+RULE = ('element types also on dense ring lattices of 42-120 nodes (thousands of triangles per node); all 3-node weighted digraphs over {0, 4e-9, 1/2, 1} (nearly symmetric matrices with a very weak one-way connection); element types: every routine also on int64 / int32 / uint8 / bool copies of all 3-node digraphs over {0,1} and {0,1,2}, 4-node graphs over {0,1,2} and {-1,0,1}, 5-node binary graphs (same values as for float64; integers must not raise, a boolean matrix may be rejected with TypeError); the structured 7-10 node family of bctmc/named.py (binary and weights {1/8,1}) and all undirected graphs n<=5 and digraphs n<=4 (binary); weights {1/8,1} on 4-node graphs and 3-node digraphs; '
         'signed {-1,-1/8,0,1/8,1} and {-1,-1e-9,0,1e-9,1} (connections weaker than common tolerances) on 4 nodes and {-1,0,1} on 5 nodes for clustering_coef_wu_sign x 3 coef types (thorough: binary n=6, weighted '
         'n=5 und and n=4 dir); non-trivial = graph with at least one triangle and at least one node on no triangle')
 ASSUMPTIONS = ['float64 inputs with empty diagonal; weights 1/8 and 1 (cube roots 1/2 and 1)',
@@ -68,6 +68,7 @@ def plan(ctx):
         tot = ss.dir_count(n, alpha) if kind == 'd' else ss.und_count(n, alpha)
         for (a, b) in ss.ranges(tot, max(1, min(800, tot // 60))):
             units.append((name, a, b))
+    units += [('dense', k, 0) for k in range(len(dense_graphs()))]
     units += dtypes.units(dtypes.STD_FAMILIES + [(False, 4, (-1, 0, 1))])
     return units
 
@@ -225,7 +226,39 @@ def check_case(t, name, X, case, override=None):
     return bool((np.any(np_ != 0) or np.any(nn != 0)) and (np.any(np_ == 0) or np.any(nn == 0)))
 
 
+def dense_graphs():
+    """dense 0/1 graphs of 40-120 nodes: thousands of triangles per node (beyond the exact range of a narrow float)"""
+    out = []
+    for n, k in ((42, 41), (90, 30), (120, 50)):
+        A = np.zeros((n, n))
+        for i in range(n):
+            for d in range(1, k // 2 + 1):
+                A[i, (i + d) % n] = A[(i + d) % n, i] = 1.0
+        out.append(('ring%d_%d' % (n, k), A))
+        D = np.triu(A)
+        D[0, n - 1] = 0
+        out.append(('ring%d_%d_dir' % (n, k), D + np.tril(A, -1) * (np.add.outer(np.arange(n), np.arange(n)) % 3 == 0)))
+    return out
+
+
+def work_dense(idx):
+    t = Tally(PROPERTY)
+    label, A = dense_graphs()[idx]
+    directed = label.endswith('_dir')
+    for name, f, pred in ETYPE_FUNCS:
+        if pred is not None and not pred(A, directed):
+            continue
+        if 'sign' in name and len(A) > 42:
+            continue        # O(n^3) pure-Python loops
+        k = dtypes.check(t, name.split('[')[0], f, A, {'family': 'dense', 'index': idx, 'graph': label, 'call': name, 'A': 'dense[%d]' % idx})
+        t.c['evaluations'] += k
+    t.c['nontrivial'] += 1
+    return t
+
+
 def work(unit):
+    if unit[0] == 'dense':
+        return work_dense(unit[1])
     if unit[0] == 'etype':
         return dtypes.work_unit(PROPERTY, ETYPE_FUNCS, unit)
     name, a, b = unit
@@ -250,6 +283,8 @@ def work(unit):
 
 
 def replay(rec):
+    if rec['case'].get('family') == 'dense':
+        return work_dense(rec['case']['index'])
     if rec['case'].get('family') == 'element_types':
         return dtypes.replay(PROPERTY, ETYPE_FUNCS, rec['case'])
     t = Tally(PROPERTY)
